@@ -128,7 +128,64 @@ def key(inp, detail):
     return f'apply:{conv}:{detail.split(":")[0][:50]}'
 
 
+def gen_entry(tier, seed):
+    for si in (0, 2, 6, 8):
+        for gname in ('line', 'point', 'area and line', 'box centre'):
+            for buffer in (0, 1):
+                yield {'spec': clip.SPECS[si], 'geometry': gname, 'buffer': buffer}
+
+
+def test_entry(inp):
+    """dataset.ems.clip(region, work_dir, buffer) is apply_clip_mask(make_clip_mask(region, buffer)) for every kind of region (lines, points,
+    collections mixing areas and lines) -- the one-step entry point does nothing to the region on the way"""
+    import os
+    import shutil
+    import tempfile
+    import warnings
+    import shapely
+    from harness import datasets
+    from harness.common import must
+    warnings.simplefilter('ignore')
+    ds = clip.enrich(datasets.build(inp['spec']))
+    x0, y0, x1, y1 = ds.ems.bounds
+    cx, cy, w, h = (x0 + x1) / 2, (y0 + y1) / 2, x1 - x0, y1 - y0
+    polys = [p for p in ds.ems.polygons if p is not None]
+    line = shapely.LineString([(x0 + w / 10, y0 + h / 10), (cx, cy + h / 5), (x1 - w / 10, cy)])
+    geom = {'line': line, 'point': polys[len(polys) // 2].representative_point(),
+            'area and line': shapely.GeometryCollection([shapely.box(x0, y0, x0 + w / 4, y0 + h / 4), line]),
+            'box centre': shapely.box(cx - w / 6, cy - h / 6, cx + w / 6, cy + h / 6)}[inp['geometry']]
+    tmp = tempfile.mkdtemp(prefix='clip-entry-', dir=os.environ.get('VERIF_TMP'))
+    try:
+        w1, w2 = os.path.join(tmp, 'a'), os.path.join(tmp, 'b')
+        os.mkdir(w1)
+        os.mkdir(w2)
+        mask = must(lambda: ds.ems.make_clip_mask(geom, buffer=inp['buffer']), 'make_clip_mask')
+        try:
+            two = ds.ems.apply_clip_mask(mask, w1).load()
+        except ValueError as e:
+            two = e                    # a region that selects nothing is refused by both routes
+        try:
+            one = ds.ems.clip(geom, w2, buffer=inp['buffer']).load()
+        except ValueError as e:
+            one = e
+        if isinstance(two, Exception) or isinstance(one, Exception):
+            if type(one) is not type(two):
+                return f'clip() gives {one!r} where make_clip_mask + apply_clip_mask give {two!r}'
+            return None
+        if set(map(str, one.variables)) != set(map(str, two.variables)):
+            return 'clip() and make_clip_mask + apply_clip_mask return different variables'
+        for k in two.variables:
+            r = compare_values(one[k].values, two[k].values, f'clip() vs make_clip_mask + apply_clip_mask, {k!r}') if one[k].dims == two[k].dims else f'{k!r}: dims differ'
+            if r:
+                return r
+        return None
+    finally:
+        shutil.rmtree(tmp, ignore_errors=True)
+
+
 CHECKS = [
+    Check('clip_entry', gen_entry, test_entry, key=lambda i, d: f"clip-entry:{i['spec']['conv']}:{i['geometry']}",
+          space='4 datasets x {line, point, collection of an area and a line, box} x buffer 0 / 1: dataset.ems.clip against the two-step route', bound='32 clips'),
     Check('apply', gen, test, key=key,
           space='15 datasets (every convention; bounds; coordinates as plain variables; meshes 0/1-based, NaN / _FillValue, transposed, with every optional '
                 'table) + float / int16 / int32 with _FillValue / int64 with missing_value variables with the spatial dimensions first and last '
